@@ -76,6 +76,20 @@ def check(ctx, run):
     regs = [e for r in res for e in r["events"] if e["kind"] == "module_method" and e["method"] == "register_forward_hook"]
     ok = bool(regs) and all(isinstance(e["args"][0], FuncInfo) and e["args"][0].qualname == hook.qualname and e["recv"].name == "hedger" for e in regs)
     fact(run, prog, init, "C03.R3a", "Hedger.__init__ registers save_prev_output as forward hook on self", ok)
+    # (a') ... and keeps the model, the criterion and the input features it was given, in the given order (every analysis below builds its
+    # hedger from these three attributes)
+    f1_, f2_ = W.feature("Moneyness", log=False), W.feature("PrevHedge")
+    m_, c_ = Sym("model", ("callable",)), Sym("criterion", ("callable",))
+    h_ = Obj(W.HEDGER, "hedger")
+    res_i = [r for r in interp.explore(init, [m_, [f1_, f2_], c_], {}, self_obj=h_) if not r["raises"]]
+    oki = bool(res_i)
+    for r in res_i:
+        st = {e["attr"]: e["value"] for e in r["events"] if e["kind"] == "obj_setattr" and e.get("obj") is h_}
+        fl_ = st.get("inputs")
+        feats = fl_.attrs.get("features") if isinstance(fl_, Obj) else None
+        oki = oki and st.get("model") is m_ and st.get("criterion") is c_ and isinstance(fl_, Obj) and fl_.cls.endswith("FeatureList") \
+            and isinstance(feats, list) and len(feats) == 2 and feats[0] is f1_ and feats[1] is f2_
+    fact(run, prog, init, "C03.R3a", "Hedger.__init__ keeps the given model, criterion and input features (in the given order)", oki)
     # (b) name agreement
     m = Obj("torch.nn.Module.fake", "mod")
     m.cls = W.HEDGER
